@@ -76,6 +76,10 @@ def hasDefault : Member → Bool
 def isConst : Member → Bool
   | .const _ => true
   | _ => false
+/-- a Field object without a default (`isinstance(v, Field) and v._default is None`) -/
+def needsValue : Member → Bool
+  | .field _ none => true
+  | _ => false
 end Member
 
 /-- the kinds of other values in a class body that the metaclass distinguishes -/
@@ -143,12 +147,15 @@ structure ClassDef where
   ownImmutable : Option Bool := none
   /-- `getattr(cls, …)`: through the MRO -/
   addl : Bool := true
-  ignoreNone : Bool := false
+  /-- `getattr(cls, '_ignore_none', <absent>)`: `none` = no class of the MRO sets it -/
+  ignoreNoneAttr : Option Bool := none
   immutable : Bool := false
 deriving Repr, Inhabited
 
 namespace ClassDef
 def fieldNames (c : ClassDef) : List String := c.allFields.map (·.1)
+/-- `getattr(cls, '_ignore_none', False)` -/
+def ignoreNone (c : ClassDef) : Bool := c.ignoreNoneAttr.getD false
 end ClassDef
 
 /-- process-wide state relevant to class definition: the classes that exist and the two guards -/
@@ -403,7 +410,7 @@ def build (w : World) (src : ClassSrc) : ClassDef :=
     ownIgnoreNone := src.ignoreNone
     ownImmutable := src.immutable
     addl := (src.addl.orElse fun _ => inheritedOpt w (·.ownAddl) tail).getD true
-    ignoreNone := (src.ignoreNone.orElse fun _ => inheritedOpt w (·.ownIgnoreNone) tail).getD false
+    ignoreNoneAttr := src.ignoreNone.orElse fun _ => inheritedOpt w (·.ownIgnoreNone) tail
     immutable := (src.immutable.orElse fun _ => inheritedOpt w (·.ownImmutable) tail).getD false }
 
 /-! ### the checks, in the code's order -/
@@ -559,10 +566,10 @@ def addConstants (consts : List (String × PyVal)) : PyVal → PyVal
   | .inst n attrs => .inst n (consts ++ attrs)
   | v => v
 
-/-- `cls(**kw)`.  `AbstractStructure.__init__` refuses when AbstractStructure is among the
-    class's direct bases; constants cannot be passed. -/
+/-- `cls(**kw)`.  `AbstractStructure.__init__` refuses when the class is AbstractStructure itself
+    or AbstractStructure is among its direct bases; constants cannot be passed. -/
 def instantiate (O : Oracles) (c : ClassDef) (kw : List (String × PyVal)) : R PyVal :=
-  if c.bases.contains "AbstractStructure" then .error .typeErr
+  if c.name == "AbstractStructure" || c.bases.contains "AbstractStructure" then .error .typeErr
   else if kw.any (fun a => (lookup a.1 c.constants).isSome) then
     (if c.sig.kwargs then .error .valueErr else .error .typeErr)
   else bindE (construct O c.toDecl kw) fun x => .ok (addConstants c.constants x)
